@@ -63,7 +63,8 @@ def coerce_int(maybe_int: _ScalarValue) -> int:
     Spec compliant int conversion.
     """
     if isinstance(maybe_int, int):
-        numeric = maybe_int
+        # bool is a subclass of int: never hand True / False on as an Int.
+        numeric = int(maybe_int)
     elif isinstance(maybe_int, float):
         try:
             numeric = int(maybe_int)
